@@ -105,6 +105,7 @@ class RunBundler:
         # a seq_num counter per stream
         self._sequence_counters: dict[Any, int] = dict()  # noqa: C408
         self._sequence_counters_copy: dict[Any, int] = dict()  # for if we redo data-points  # noqa: C408
+        self._bundled_streams: set[Any] = set()  # streams filled by create/save bundles (re-taken on rewind)
         self._monitor_params: dict[Subscribable, tuple[Callback, dict]] = dict()  # noqa: C408  # cache of {obj: (cb, kwargs)}
         # a cache of stream_resource uid to the data_keys that stream_resource collects for
         self._stream_resource_data_keys: dict[str, Iterable[str]] = dict()  # noqa: C408
@@ -490,14 +491,16 @@ class RunBundler:
             self.emit_sync(DocumentNames.event, doc)
 
     def rewind(self):
-        self._sequence_counters.clear()
-        self._sequence_counters.update(self._sequence_counters_copy)
-        # make sure we do not forget about streams we roll back to the
-        # very beginning of
-        for desc_key in self._descriptor_objs:
-            if desc_key not in self._sequence_counters:
-                self._sequence_counters[desc_key] = 1
-                self._sequence_counters_copy[desc_key] = 1
+        # Only the streams filled by 'create' ... 'save' bundles are re-taken after a
+        # rewind.  Monitor updates, interruption records and collected data are never
+        # replayed, so their counters must keep counting: rolling them back repeats
+        # seq_nums and makes RunStop under-count (and dropped the 'interruptions'
+        # counter altogether when no checkpoint had been passed since 'open_run').
+        for desc_key in self._bundled_streams:
+            # a stream first filled after the checkpoint is rolled back to its beginning
+            seq_num = self._sequence_counters_copy.get(desc_key, 1)
+            self._sequence_counters[desc_key] = seq_num
+            self._sequence_counters_copy[desc_key] = seq_num
 
         # This is needed to 'cancel' an open bundling (e.g. create) if
         # the pause happens after a 'checkpoint', after a 'create', but
@@ -551,6 +554,7 @@ class RunBundler:
 
         # Event Descriptor key
         desc_key = self._bundle_name
+        self._bundled_streams.add(desc_key)
 
         # This is a separate check because it can be reset on resume.
         self.bundling = False
